@@ -54,6 +54,8 @@ def strategy(tier):
         # resolved (a storage server without the application's code)
         'missing_targets': st.sampled_from([False, False, True]),
         'undo_first': st.sampled_from([False, False, True]),
+        # the state also holds the object's own class (a value the state pickle shares with the class part of the record)
+        'self_class': st.sampled_from([False, False, True]),
         'undo': st.integers(0, 3),
         # two intermediate transactions undone in ONE transaction, in this order (None: the single undo above)
         # ('-last': one of them is the newest change, whose record is the current one on disk)
@@ -191,6 +193,9 @@ def execute(case):
             tm.commit()         # (targets exist in their databases before they are referenced)
             obj = klass()
             obj.n = 0
+            if case.get('self_class') and variant != 'Missing':
+                obj.c_factory = type(obj)
+                out.label('state-shares-a-value-with-the-class-part')
             for key, ti in case['init']:
                 setattr(obj, key, ref_value(key, targets[target_name(key, ti)], ti))
             root['obj'] = obj
